@@ -301,6 +301,69 @@ func genShapes(c *core.Check, emit func(prog) bool) {
 	rec(nil, nil)
 }
 
+// var hoisting: several `var` statements of one function are merged into one declaration, which
+// may sit inside a nested block that has block-scoped bindings of its own; the merged names
+// must stay distinct from every let/const/catch binding of the blocks they pass through.
+func genVarHoisting(c *core.Check, emit func(prog) bool) {
+	blocks := []string{"if(h0()){B}", "{B}", "for(let i0=0;i0<1;i0++){B}", "try{B}catch(c0){h1('c0',c0)}", "try{throw 5}catch(c0){h1('c0',c0);B}", "switch(1){case 1:B}", "for(const w0 of [8]){h1('w0',w0);B}", "while(h0()){B;break}", "{let z0=71;{B}h1('z0',z0)}", "if(h0()){const y0=72;if(h0()){B}h1('y0',y0)}"}
+	for pre := 0; pre <= 3; pre++ {
+		for bi, blk := range blocks {
+			for lets := 0; lets <= 2; lets++ {
+				for m := 1; m <= 3; m++ {
+					for post := 0; post <= 1; post++ {
+						for use := 0; use < 1<<pre; use++ { // which of the function-level vars are also referenced inside the block
+							var fn, inner strings.Builder
+							fn.WriteString("function F(h0,h1){")
+							var outer []string
+							for i := 0; i < pre; i++ {
+								fmt.Fprintf(&fn, "var p%d=%d;", i, 11+i)
+								outer = append(outer, fmt.Sprintf("p%d", i))
+							}
+							var names []string
+							for i := 0; i < lets; i++ {
+								fmt.Fprintf(&inner, "%s k%d=%d;", []string{"let", "const"}[i%2], i, 21+i)
+								names = append(names, fmt.Sprintf("k%d", i))
+							}
+							inner.WriteString("var ")
+							for i := 0; i < m; i++ {
+								if i > 0 {
+									inner.WriteString(",")
+								}
+								fmt.Fprintf(&inner, "a%d=%d", i, 31+i)
+								names = append(names, fmt.Sprintf("a%d", i))
+							}
+							inner.WriteString(";")
+							for i, o := range outer {
+								if use>>i&1 == 1 {
+									names = append(names, o)
+								}
+							}
+							// h0 is referenced inside the block as well: a block binding can then not simply reuse its name
+							fmt.Fprintf(&inner, "h1('in',typeof h0,%s);fs.push(()=>[%s])", strings.Join(names, ","), strings.Join(names, ","))
+							fn.WriteString("var fs=[];")
+							fn.WriteString(strings.Replace(blk, "B", inner.String(), 1))
+							all := append([]string{}, outer...)
+							for i := 0; i < m; i++ {
+								all = append(all, fmt.Sprintf("a%d", i))
+							}
+							for i := 0; i < post; i++ {
+								fmt.Fprintf(&fn, "var r%d=%d;", i, 41+i)
+								all = append(all, fmt.Sprintf("r%d", i))
+							}
+							// no further var in the tail: a for-of binding would be the least used function-level name and shield the others
+							fmt.Fprintf(&fn, "h1('out',%s);fs.forEach(function(f){h1('c',f())})}", strings.Join(all, ","))
+							_ = bi
+							if !emit(prog{fn.String(), "fn", false, false}) {
+								return
+							}
+						}
+					}
+				}
+			}
+		}
+	}
+}
+
 // free variables named like the names the renamer hands out first; locals must avoid them
 func genFreeNames(c *core.Check, emit func(prog) bool) {
 	first := []string{"e", "t", "n", "s", "o", "i", "a", "r", "l", "c", "u", "d", "h", "p", "f", "m", "g", "y", "b", "v", "w", "k", "x", "q", "z", "j", "_", "$", "ee", "te", "ne", "se"}
@@ -436,7 +499,7 @@ func genPublic(c *core.Check, emit func(prog) bool) {
 
 // Run executes C02.
 func Run(c *core.Check) {
-	c.Rule = "scope shapes: every chain of <=2 (thorough <=3) nested scopes over 12 scope kinds (function, arrow, method, class method, generator, block, for, for-of, switch, catch, finally, if) x 9 declaration kinds per scope (var/let/const/function/class/parameter default/object and array patterns/separate assignment) x 4 naming schemes (distinct, shadowing, names equal to the renamer's first picks); every declaration has its own constant, every use site logs what it resolves to before and after the inner scope, closures are called at the end; free-variable families with globals named like generated names; one scope with N bindings for N up to 3700 (all N in thorough) with and without two-letter globals; public-name programs (properties, labels, top-level declarations, with, imports/exports) checked statically with acorn. Executed for KeepVarNames off and on. Non-trivial = renamed output differs from the name-keeping output"
+	c.Rule = "scope shapes: every chain of <=2 (thorough <=3) nested scopes over 12 scope kinds (function, arrow, method, class method, generator, block, for, for-of, switch, catch, finally, if) x 9 declaration kinds per scope (var/let/const/function/class/parameter default/object and array patterns/separate assignment) x 4 naming schemes (distinct, shadowing, names equal to the renamer's first picks); every declaration has its own constant, every use site logs what it resolves to before and after the inner scope, closures are called at the end; var hoisting: 0-3 function-level var statements x 10 block shapes (if, block, for, try, catch, switch, for-of, while, nested) x 0-2 let/const x a var with 1-3 declarators in the block x 0-1 later var x every subset of the outer names used inside the block; free-variable families with globals named like generated names; one scope with N bindings for N up to 3700 (all N in thorough) with and without two-letter globals; public-name programs (properties, labels, top-level declarations, with, imports/exports) checked statically with acorn. Executed for KeepVarNames off and on. Non-trivial = renamed output differs from the name-keeping output"
 	c.Assumptions = []string{"V8 as engine and acorn 8.16 as parser (both from node 20)", "direct eval / Function reaching local names is outside the domain"}
 	pool, err := jsoracle.NewPool(core.Workers())
 	if err != nil {
@@ -450,7 +513,7 @@ func Run(c *core.Check) {
 	fams := []struct {
 		name string
 		gen  func(*core.Check, func(prog) bool)
-	}{{"scope-shapes", genShapes}, {"free-names", genFreeNames}, {"large-scopes", genLargeScopes}, {"public-names", genPublic}}
+	}{{"scope-shapes", genShapes}, {"var-hoisting", genVarHoisting}, {"free-names", genFreeNames}, {"large-scopes", genLargeScopes}, {"public-names", genPublic}}
 	for _, f := range fams {
 		fam := f
 		type job struct {
